@@ -406,6 +406,24 @@ func runC07(c *Ctx) {
 					seenShared[key+fmt.Sprint(D)] = true
 				}
 				danger := setOf(D).minus(cl.printer.neutral)
+				// string(b) of a byte is the UTF-8 encoding of the code point U+00bb, not the byte: for b >= 0x80 two bytes
+				if cv, ok := si.call.Call.Args[1].(*ssa.Convert); ok {
+					if db, ok := cv.Type().Underlying().(*types.Basic); ok && db.Info()&types.IsString != 0 {
+						if sb, ok := cv.X.Type().Underlying().(*types.Basic); ok && sb.Info()&types.IsInteger != 0 {
+							hi := bset{}
+							for b := 0x80; b < 0x100; b++ {
+								if si.set.has(byte(b)) {
+									hi.add(byte(b))
+								}
+							}
+							k2 := fmt.Sprintf("%s: %s sink #%d after %q writes bytes, not code points", cx.fn.Name(), si.class, si.ord, esc)
+							if !seenShared[k2] {
+								seenShared[k2] = true
+								c.check(hi.empty(), k2, si.call.Pos(), "no byte >= 0x80 reaches the conversion", "the byte is written through string(b): for a byte >= 0x80 (any non-ASCII character of the source) that is the two-byte UTF-8 encoding of U+0080–U+00FF, not the byte — every non-ASCII character of the literal is corrupted")
+							}
+						}
+					}
+				}
 				switch {
 				case si.class == "const" && si.multi:
 					bad := si.set.inter(danger.union(setOf('\n', '\r')))
